@@ -18,6 +18,19 @@ CLAIMED = {
     ),
 }
 
+CLAIMED["C16"] = dict(
+    category="model_checking",
+    text="ClassQueue.tla holds an implementation-shaped transcription of DefaultQueue and, separately, the property as clauses "
+         "P1-P5 over a ghost record of the observable call history. TLC checks transcription => clauses for every interleaving "
+         "of add/stop/verified/not-inferrable/next/do_level (2-3 labels, 5-11 pack shapes, depth 9-11), exports a transition "
+         "cover and simulator behaviours, which are replayed on real DefaultQueue objects; TLC judges every recorded trace "
+         "(and the queue traffic of real searches) with the ghost clauses alone.",
+    design_ref="DESIGN.md 3/C16",
+    note="Trusted: TLC, the recorder (wraps DefaultQueue methods incl. the do_level generator). Order between labels is not "
+         "demanded (divergences from the transcription are reported in the evidence, never as violations).",
+    technique="TLA+ spec + TLC model checking (refinement by invariant); replay of TLC behaviours; trace validation by TLC",
+)
+
 NOT_YET = {}
 
 ALL = ["C%02d" % i for i in range(1, 21)]
